@@ -21,6 +21,9 @@ sys.path.insert(0, C.VERIF)
 
 SIG_OVERLAP = "tio-shift-overlap"
 SIG_OOB = "tio-illseq-oob"
+SIG_WBCSTR = "tio-writebcstr-full"
+SIG_U16_SMALL = "utf16-small-buffer"
+SIG_U16_INCOMPLETE = "utf16-incomplete"
 
 
 def u8(c):
@@ -35,6 +38,117 @@ BOUNDARY = [0, 1, 9, 0x0A, 0x0D, 0x20, 0x3F, 0x7E, 0x7F, 0x80, 0x81, 0xBF, 0xC0,
 # ----------------------------------------------------------------------------
 # generators (harness level)
 # ----------------------------------------------------------------------------
+def cm_of_flags(flags):
+    return "utf16" if "U" in flags else "mb8" if "M" in flags else "utf8"
+
+
+def enc_cm(cm, c):
+    """reference encoding of one character under a character manager, None when the manager does not carry it"""
+    c &= 0xFFFF
+    if cm == "utf8":
+        return u8(c)
+    if cm == "mb8":
+        return bytes([c]) if c < 256 else None
+    return None if 0xD800 <= c <= 0xDFFF else bytes([c & 0xFF, c >> 8])   # utf16, host (little endian) order
+
+
+def ref_decode_cm(cm, data):
+    """code points of a well-formed string under the manager, else None"""
+    if cm == "utf8":
+        return ref_decode(data)
+    if cm == "mb8":
+        return list(data)
+    if len(data) % 2:
+        return None
+    cps = [data[i] | (data[i + 1] << 8) for i in range(0, len(data), 2)]
+    return None if any(0xD800 <= c <= 0xDFFF for c in cps) else cps
+
+
+def dom_char(rng, cm):
+    while True:
+        c = rand_char(rng)
+        if cm == "mb8":
+            c = rng.choice([c & 0xFF, rng.randrange(256), 0x0A, 0x41])
+        if enc_cm(cm, c) is not None:
+            return c
+
+
+def gen_cmgr(ctx):
+    """the other two built-in character managers (utf16.c, mb8.c), the selection by name and the wrappers of utl-cmgr.c, the
+    null-terminated conversions, the duplicating converters of gem.c and the value constructors / converters of val.c"""
+    rng = ctx.rng
+    quick = ctx.tier == "quick"
+    L = []
+    for c in range(0x10000):
+        L.append("cenc utf16 %x 2" % c)
+        L.append("cdec utf16 %02x%02x" % (c & 0xFF, c >> 8))
+        if c % (7 if quick else 1) == 0:
+            L.append("cenc utf16 %x %d" % (c, c % 2))                # too small a buffer (0 or 1 byte)
+            L.append("cdec utf16 %02x%02x%02x" % (c & 0xFF, c >> 8, c % 251))
+    for b in range(256):
+        L += ["cenc mb8 %x 1" % b, "cenc mb8 %x 0" % b, "cenc mb8 %x 6" % b, "cdec mb8 %02x" % b, "cdec mb8 %02x41" % b, "cdec utf16 %02x" % b,
+              "cenc mb8 %x 1" % (256 + b * 255), "cenc mb8 %x 0" % (256 + b)]
+    for nm in ["utf8", "utf16", "mb8", "UTF8", "Utf16", "MB8", "utf", "utf88", "utf-8", "-", "mb", "utf16le", "latin1", "8", "utf8 "]:
+        L.append("cname %s" % nm.replace(" ", "_"))
+    n = 500 if quick else 15000
+    for _ in range(n):
+        cm = rng.choice(["utf8", "utf16", "mb8"])
+        cs = [dom_char(rng, cm) for _ in range(rng.randrange(0, 10))]
+        data = b"".join(enc_cm(cm, c) for c in cs)
+        if rng.random() < 0.3:
+            # ill-formed: cut, or a stray piece
+            k = rng.randrange(0, len(data) + 1)
+            data = data[:k] + rng.choice([b"", b"\xff", b"\x00\xd8", b"\xe2\x82", b"\x80"]) + (data[k + 1:] if rng.random() < 0.5 else data[k:])
+        hx = data.hex() or "-"
+        tot = len(data)
+        L.append("cbtou %s %d %s" % (cm, rng.choice([0, 1, len(cs), len(cs) + 1, rng.randrange(0, len(cs) + 3)]), hx))
+        L.append("cbtous %s %d %s" % (cm, rng.choice([0, 1, len(cs), len(cs) + 1, len(cs) + 2]), hx))
+        L.append("dupb %s %d %s" % (cm, rng.randrange(2), hx))
+        L.append("v2u %s %s" % (cm, hx))
+        if cm == "utf8":
+            L.append("vstr %s" % hx)
+        ws = list(cs)
+        if rng.random() < 0.2 and cm != "utf8":
+            ws.insert(rng.randrange(0, len(ws) + 1), rng.choice([0x100, 0x20AC, 0xFFFF]) if cm == "mb8" else rng.choice([0xD800, 0xDBFF, 0xDC00, 0xDFFF]))
+        wx = ",".join("%x" % c for c in ws) or "-"
+        L.append("cutob %s %d %s" % (cm, rng.choice([0, 1, 2, tot, max(0, tot - 1), tot + 1, rng.randrange(0, tot + 3)]), wx))
+        L.append("cutobs %s %d %s" % (cm, rng.choice([0, 1, tot, tot + 1, tot + 2]), wx))
+        L.append("dupu %s %s" % (cm, wx))
+        L.append("v2b %s %s" % (cm, wx))
+        if cm == "utf8":
+            L.append("vmbs %s" % wx)
+    # tio with the utf16 / mb8 manager: every two-chunk split (odd boundaries included), random chunkings, writes from odd offsets
+    seeds = {"U": [[0x41, 0x20AC, 0x0A], [0x0A, 0xAC00, 0x0A, 0x61], [0xFFFF, 0, 0x0A0A, 0x0A], [0x3F, 0xE9]],
+             "M": [[0x41, 0xE9, 0x0A], [0x0A, 0xFF, 0x00, 0x0A], [0x80, 0x3F]]}
+    for fl, lst in seeds.items():
+        cm = cm_of_flags(fl)
+        for cs in lst:
+            data = b"".join(enc_cm(cm, c) for c in cs)
+            for cut in range(0, len(data) + 1):
+                chs = [c for c in (data[:cut], data[cut:]) if c]
+                for size in (1, 2, 64):
+                    L.append("tior 32 i%s %d %s" % (fl, size, fmt_chunks(chs)))
+                L.append("tior 32 %s 4 %s" % (fl, fmt_chunks(chs)))
+            L.append("tior 32 i%s 5 %s" % (fl, fmt_chunks([data[i:i + 1] for i in range(len(data))])))
+            L.append("tior 32 i%s 5 %s" % (fl, fmt_chunks([data + b"\x41"])))       # an odd byte at the end of input
+    for _ in range(150 if quick else 6000):
+        fl = rng.choice(["U", "M"]); cm = cm_of_flags(fl)
+        cs = [dom_char(rng, cm) for _ in range(rng.randrange(0, 50))]
+        data = b"".join(enc_cm(cm, c) for c in cs)
+        capa = rng.choice([32, 33, 64]); size = rng.choice([1, 2, 3, 8, 31, 32, 33, 2048])
+        L.append("tior %d i%s %d %s" % (capa, fl, size, fmt_chunks(chunkings(rng, data, rng.choice(["one", "bytes", "rand", "rand"])))))
+        L.append("tior %d i%s %d %s" % (rng.choice([32, 35]), fl, rng.choice([1, 7, 64]), fmt_chunks(chunkings(rng, data, "rand"))))
+        segs = [[dom_char(rng, cm) for _ in range(rng.choice([0, 1, 15, 16, 17, 40]))] for _ in range(rng.randrange(1, 4))]
+        ops = []
+        for sg in segs:
+            if rng.random() < 0.4:
+                ops.append("b:" + bytes(rng.randrange(256) for _ in range(rng.choice([1, 1, 3, 31]))).hex())   # makes the offset odd
+            ops.append("u:" + (",".join("%x" % c for c in sg) or "-"))
+        ops += rng.choice([[], ["F"], ["F", "F"]])
+        L.append("tiox %d i%s %s %s" % (rng.choice([32, 33, 34]), fl, rand_script(rng, 32), "/".join(ops)))
+    return L
+
+
 def gen_codec(ctx):
     rng = ctx.rng
     L = []
@@ -243,7 +357,7 @@ def gen_write(ctx):
     hello = "68,65,6c,6c,6f,20,77,6f,72,6c,64,a"
     # exhaustive: every script of length <= 3 over {accept 1, accept 5, accept all, 0, f} for a few call lists
     alpha = ["1", "5", "99", "0", "f"]
-    calls = ["u:%s/F" % hello, "u:%s/F/F" % hello, "b:68656c6c6f20776f726c640a/F/F", "u:61,62/u:a/u:20ac,e9/u:a/F", "u:%s/u:%s/F/F" % (hello, hello)]
+    calls = ["s:68656c6c6f20776f726c640a/F/F", "s:%s/F/F" % ("41" * 33 + "0a42"), "u:%s/F" % hello, "u:%s/F/F" % hello, "b:68656c6c6f20776f726c640a/F/F", "u:61,62/u:a/u:20ac,e9/u:a/F", "u:%s/u:%s/F/F" % (hello, hello)]
     import itertools
     for n in (0, 1, 2, 3):
         for sc in itertools.product(alpha, repeat=n):
@@ -263,7 +377,7 @@ def gen_write(ctx):
                 ops.append("u:" + (",".join("%x" % c for c in seg) or "-"))
             elif k < 0.75:
                 bs = bytes(rng.randrange(256) if rng.random() < 0.85 else 0x0A for _ in range(rng.choice([0, 1, 5, capa - 1, capa, capa + 1, 2 * capa + 3, rng.randrange(0, 90)])))
-                ops.append("b:" + (bs.hex() or "-"))
+                ops.append(rng.choice(["b:", "b:", "s:"]) + (bs.hex() or "-"))
             else:
                 ops.append("F")
         ops += rng.choice([[], ["F"], ["F", "F"], ["F", "F", "F"]])
@@ -415,13 +529,17 @@ def oracle_line(l, o):
                     if n > size or n != len(cs):
                         return "a read returned %d characters into room for %d" % (n, size)
                     chars += cs
-            r = ref_decode(data)
+            cm = cm_of_flags(flags)
+            r = ref_decode_cm(cm, data)
             if end == "eof" and calls and not calls[-1][1].endswith(":-"):
                 return "end of input reported while staged bytes were neither delivered, replaced nor rejected (%s)" % calls[-1][1]
             if r is not None:
                 if chars != r or end != "eof":
                     k = next((i for i in range(min(len(chars), len(r))) if chars[i] != r[i]), min(len(chars), len(r)))
                     return "well-formed text read back differently at character %d (%d read, %d expected, end=%s)" % (k, len(chars), len(r), end)
+            elif "i" in flags and cm != "utf8":
+                if end != "eof":
+                    return "ill-formed input with IGNOREECERR did not reach end of input (end=%s)" % end
             elif "i" in flags:
                 if end != "eof":
                     return "ill-formed input with IGNOREECERR did not reach end of input (end=%s)" % end
@@ -460,7 +578,7 @@ def oracle_line(l, o):
             sink = [] if f["sink"] == "." else [p_bytes(x) for x in f["sink"].split("/")]
             got = b"".join(sink) + p_bytes(f["rest"])
             if w[0] == "tiow":
-                exp = b"".join(u8(int(c, 16) & 0xFFFF) for sg in w[3].split("/") if sg != "-" for c in sg.split(","))
+                exp = b"".join(enc_cm(cm_of_flags(flags), int(c, 16)) for sg in w[3].split("/") if sg != "-" for c in sg.split(","))
             else:
                 exp = b"".join(p_chunks(w[3]))
             if any(len(x) > capa for x in sink):
@@ -472,10 +590,105 @@ def oracle_line(l, o):
                 return "bytes written differ from the reference encoding at byte %d (%d written, %d expected)" % (k, len(got), len(exp))
         elif w[0] == "tiox":
             return oracle_tiox(w, o)
+        elif w[0] in ("cenc", "cdec", "cname", "cbtou", "cbtous", "cutob", "cutobs", "dupb", "dupu", "v2u", "v2b", "vstr", "vmbs"):
+            return oracle_cmgr(w, o)
         elif w[0] == "prt":
             return oracle_prt(w, o)
     except Exception as e:
         return "unparsable output %r (%r)" % (o[:120], e)
+    return None
+
+
+def oracle_cmgr(w, o):
+    """the other character managers, the wrappers, the duplicating converters and the value converters against python references"""
+    op = w[0]
+    if op == "cname":
+        nm = "" if w[1] == "-" else w[1].replace("_", " ")
+        exp = nm if nm in ("utf8", "utf16", "mb8") else "NULL"
+        if "DISAGREE" in o:
+            return "hawk_get_cmgr_by_bcstr and hawk_get_cmgr_by_ucstr disagree on %r" % nm
+        if o != "id=" + exp:
+            return "name %r selects %s, expected %s" % (nm, o, exp)
+        return None
+    if "NONDET" in o or "TOUCHED" in o or "NOT-TERMINATED" in o or "SETCMGR-LOST" in o:
+        return "misbehaviour flagged by the harness: %s" % o[:80]
+    cm = "utf8" if op in ("vstr", "vmbs") else w[1].replace("utf16L", "utf16")
+    if op == "cenc":
+        c, size = int(w[2], 16) & 0xFFFF, int(w[3]); f = kv(o); ref = enc_cm(cm, c)
+        if cm == "utf16":
+            ref = bytes([c & 0xFF, c >> 8])     # the encoder writes any 16-bit unit; only the decoder refuses surrogates
+        if ref is None:
+            if size >= 1 and int(f["ret"]) != 0:
+                return "a character the %s manager does not carry (U+%04X) was not refused: ret %s" % (cm, c, f["ret"])
+        elif size >= len(ref):
+            if int(f["ret"]) != len(ref) or f["bytes"] != ref.hex():
+                return "%s: U+%04X encodes to %s (ret %s), reference %s" % (cm, c, f["bytes"], f["ret"], ref.hex())
+        elif int(f["ret"]) <= size or f["bytes"] != "-":
+            return "%s: too small a buffer (%d) not reported: ret %s bytes %s" % (cm, size, f["ret"], f["bytes"])
+    elif op == "cdec":
+        b = p_bytes(w[2]); f = kv(o); ret = int(f["ret"])
+        if cm == "mb8":
+            if ret != 1 or f["uc"] == "-" or int(f["uc"], 16) != b[0]:
+                return "mb8: byte %02x decodes to ret=%d uc=%s" % (b[0], ret, f["uc"])
+        elif cm == "utf16":
+            if len(b) < 2:
+                if ret <= len(b):
+                    return "utf16: one byte of a two-byte unit is not reported incomplete (ret %d; 0 means illegal)" % ret
+            else:
+                u = b[0] | (b[1] << 8)
+                if not (0xD800 <= u <= 0xDFFF) and (ret != 2 or f["uc"] == "-" or int(f["uc"], 16) != u):
+                    return "utf16: unit %04x decodes to ret=%d uc=%s" % (u, ret, f["uc"])
+    elif op in ("cbtou", "cbtous"):
+        wcap = int(w[2]); b = p_bytes(w[3]); f = kv(o)
+        if op == "cbtous" and 0 in b:
+            b = b[:b.index(0)]
+        out = p_chars(f["out"]); mlen = int(f["mlen"])
+        if mlen > len(b) or len(out) > wcap:
+            return "consumed %d of %d bytes, stored %d characters in room for %d" % (mlen, len(b), len(out), wcap)
+        r = ref_decode_cm(cm, b)
+        if r is not None:
+            if out != r[:wcap]:
+                return "%s: well-formed input converts to %s, reference %s" % (cm, out, r[:wcap])
+            if op == "cbtous" and (f["nul"] == "1") != (len(out) < wcap):
+                return "terminating NUL: nul=%s with %d characters in room for %d" % (f["nul"], len(out), wcap)
+    elif op in ("cutob", "cutobs"):
+        rem = int(w[2]); cs = [c & 0xFFFF for c in p_chars(w[3])]; f = kv(o)
+        if op == "cutobs" and 0 in cs:
+            cs = cs[:cs.index(0)]
+        exp = b""; n = 0; refused = False
+        for c in cs:
+            e = bytes([c & 0xFF, c >> 8]) if cm == "utf16" else enc_cm(cm, c)
+            if e is None:
+                refused = len(exp) < rem      # with no room left the loop says "buffer too small" before it looks at the character
+                break
+            if len(exp) + len(e) > rem:
+                break
+            exp += e; n += 1
+        if p_bytes(f["bytes"]) != exp or int(f["ulen"]) != n:
+            return "%s: characters convert to %s (%s consumed), reference %s (%d)" % (cm, f["bytes"], f["ulen"], exp.hex(), n)
+        if refused and int(f["x"]) != -1 and not (op == "cutobs" and len(exp) >= rem):
+            return "%s: a character the manager does not carry was not refused (x=%s)" % (cm, f["x"])
+    elif op in ("dupb", "v2u", "vstr"):
+        b = p_bytes(w[-1]); allf = (w[2] == "1") if op == "dupb" else True
+        r = ref_decode_cm(cm, b)
+        if o.startswith("ok "):
+            f = kv(o); out = p_chars(f["out"])
+            if int(f["len"]) != len(out) or len(out) > len(b):
+                return "length %s for %d characters from %d bytes" % (f["len"], len(out), len(b))
+            if r is not None and out != r:
+                return "%s: well-formed bytes become %s, reference %s" % (cm, out, r)
+        elif r is not None or allf or o != "EECERR":
+            return "%s: bytes -> text failed with %s (well-formed: %s, all: %s)" % (cm, o, r is not None, allf)
+    elif op in ("dupu", "v2b", "vmbs"):
+        cs = [c & 0xFFFF for c in p_chars(w[-1])]
+        es = [bytes([c & 0xFF, c >> 8]) if cm == "utf16" else enc_cm(cm, c) for c in cs]
+        if any(e is None for e in es):
+            if o != "EECERR":
+                return "%s: text with a character the manager does not carry converts with %s instead of failing with EECERR" % (cm, o[:60])
+        else:
+            exp = b"".join(es); f = kv(o) if o.startswith("ok ") else None
+            if f is None or p_bytes(f["out"]) != exp or int(f["len"]) != len(exp):
+                return "%s: text becomes %s, reference %s" % (cm, o[:80], exp.hex())
     return None
 
 
@@ -535,11 +748,11 @@ def oracle_tiox(w, o):
                 return "flush failed with nothing left staged"
             items.append((b"", True))
         else:
-            text = b"".join(u8(int(c, 16) & 0xFFFF) for c in op[2:].split(",")) if (op[0] == "u" and op[2:] != "-") else (p_bytes(op[2:]) if op[0] == "b" else b"")
+            text = b"".join(enc_cm(cm_of_flags(w[2]), int(c, 16)) for c in op[2:].split(",")) if (op[0] == "u" and op[2:] != "-") else (p_bytes(op[2:]) if op[0] == "b" else (p_bytes(op[2:]).split(b"\x00")[0] if op[0] == "s" else b""))
             if ret not in ("ok", "EIOERR", "EBUFFULL"):
                 return "write returned %s" % ret
-            if ret == "EBUFFULL" and prev_len < capa:
-                return "EBUFFULL although the staging buffer was not full (%d of %d)" % (prev_len, capa)
+            if ret == "EBUFFULL" and prev_len < capa and ln < capa:
+                return "EBUFFULL although the staging buffer was not full before (%d of %d) nor after (%d) the call" % (prev_len, capa, ln)
             items.append((text, ret == "ok"))
         if ret == "EIOERR" and "f" not in script:
             return "a call failed although the handler never failed"
@@ -608,10 +821,11 @@ def oracle_groups(lines, cout):
             chars = tuple(c for head, st in calls if ":" in head for c in p_chars(head.split(":")[1]))
         except Exception:
             continue
-        if data not in first:
-            first[data] = (i, chars)
-        elif first[data][1] != chars:
-            hits.append((i, "the same %d bytes read under two schedules give different characters (op %d: %r)" % (len(data), first[data][0], lines[first[data][0]][:120])))
+        key = (cm_of_flags(w[2]), data)
+        if key not in first:
+            first[key] = (i, chars)
+        elif first[key][1] != chars:
+            hits.append((i, "the same %d bytes read under two schedules give different characters (op %d: %r)" % (len(data), first[key][0], lines[first[key][0]][:120])))
     return hits
 
 
@@ -640,9 +854,7 @@ def predict_legacy(ctx, lines):
         w = lines[i].split()
         req.append("tior %s %sL %s %s" % (w[1], w[2], w[3], w[4]))
     res = {}
-    if not req:
-        return res
-    for i, o in zip(idx, drv(ctx, req)):
+    for i, o in (zip(idx, drv(ctx, req)) if req else []):
         size = int(lines[i].split()[3])
         for call in o.split(" "):
             head = call.split("|")[0]
@@ -652,6 +864,52 @@ def predict_legacy(ctx, lines):
             if ":" in head and head.split(":")[0].isdigit() and int(head.split(":")[0]) > size:
                 res[i] = SIG_OOB
                 break
+    for i, l in enumerate(lines):
+        if utf16_write_op(l):
+            res.setdefault(i, SIG_U16_SMALL)
+    idx = [i for i, l in enumerate(lines) if l.startswith("tiox ") and "s:" in l and i not in res]
+    if idx:
+        req = []
+        for i in idx:
+            w = lines[i].split()
+            req.append(" ".join(w[:2] + [w[2] + "L"] + w[3:]))
+        for i, o in zip(idx, drv(ctx, req)):
+            if "FAULT-oob-write" in o:
+                res[i] = SIG_WBCSTR
+    return res
+
+
+def utf16_write_op(l):
+    """ops that can give the utf16 encoder fewer than two bytes of room (the unrepaired hawk_uc_to_utf16 stores regardless)"""
+    w = l.split()
+    if w[0] == "cenc":
+        return w[1] == "utf16" and int(w[3]) < 2
+    if w[0] in ("cutob", "cutobs"):
+        return w[1] == "utf16"
+    if w[0] in ("tiow", "tiox"):
+        return "U" in w[2]
+    return False
+
+
+def legacy_line(l):
+    """the same op for the model of the unrepaired utf16.c, or None when the op does not involve it"""
+    w = l.split()
+    if w[0] in ("cenc", "cdec", "cbtou", "cbtous", "cutob", "cutobs", "dupb", "dupu", "v2u", "v2b") and w[1] == "utf16":
+        return " ".join([w[0], "utf16L"] + w[2:])
+    if w[0] in ("tior", "tiow", "tiox") and "U" in w[2] and "K" not in w[2]:
+        return " ".join(w[:2] + [w[2] + "K"] + w[3:])
+    return None
+
+
+def known_sigs(ctx, lines, cout, idxs):
+    """index -> signature for oracle hits that are exactly what the model of the unrepaired utf16 decoder does"""
+    req = [(i, legacy_line(lines[i])) for i in idxs]
+    req = [(i, l) for i, l in req if l is not None and cout[i] is not None]
+    res = {}
+    if req:
+        for (i, _), o in zip(req, drv(ctx, [l for _, l in req])):
+            if o == cout[i]:
+                res[i] = SIG_U16_INCOMPLETE
     return res
 
 
@@ -664,6 +922,11 @@ def classify_abort(ctx, line, status, cerr):
             return SIG_OVERLAP
         if pred == SIG_OOB and "heap-buffer-overflow" in cerr and "WRITE of size" in cerr and "tio_read_uchars" in cerr:
             return SIG_OOB
+    if w and w[0] == "tiox" and status == "ASAN" and "s:" in line and "heap-buffer-overflow" in cerr and "WRITE of size 1" in cerr and "hawk_tio_writebchars" in cerr:
+        if predict_legacy(ctx, [line]).get(0) == SIG_WBCSTR:
+            return SIG_WBCSTR
+    if w and status == "ASAN" and utf16_write_op(line) and "heap-buffer-overflow" in cerr and "WRITE of size 2" in cerr and "hawk_uc_to_utf16" in cerr:
+        return SIG_U16_SMALL
     return None
 
 
@@ -947,6 +1210,10 @@ def language_level(ctx, libdir):
                           "# run: %s '<prog>'\n%s\n%s\n" % (hawk, prog, err[-1500:]), cli_sig(err)))
     ncache, chits = cache_family(ctx, hawk, wdir)
     impl_hits += chits[:3]
+    nconv, conv_impl, conv_corr = conv_family(ctx, hawk, wdir)
+    impl_hits += conv_impl
+    corr_hits += conv_corr
+    ncache += nconv
     ok_c, got_c = cache_constants_ok()
     if not ok_c:
         corr_hits.append(("the string-cache constants of lib/hawk-prv.h are no longer the ones the many-strings family is laid out around (16 classes x 16 x 128): %r" % (got_c,), ""))
@@ -1072,6 +1339,180 @@ def cache_family(ctx, hawk, wdir):
                          keepf, hawk, keepf, err[-2500:].replace("\n", "\n# ")), None))
     return len(jobs), hits
 
+
+# ----------------------------------------------------------------------------
+# the other encodings and the bytes <-> text conversions of values at the language level
+# ----------------------------------------------------------------------------
+CONV_B2T = r"""BEGIN {
+  while ((getbline x) > 0) {
+    a = "" x; b = str::frommbs(x); c = str::frommbs(x, "utf8"); d = str::frommbs(x, "mb8"); e = str::frommbs(x, "utf16");
+    f = str::frommbs(x, "nosuch"); g = sprintf("%s", x); h = x "";
+    print length(a) "|" a; print length(b) "|" b; print length(c) "|" c; print length(d) "|" d; print length(e) "|" e;
+    print length(f) "|" f; print length(g) "|" g; printf(@b"%d|%s\n", length(h), h); print hawk::typename(a) hawk::typename(d) hawk::typename(h);
+  }
+}"""
+CONV_T2B = r"""{
+  a = @b"" $0; b = str::tombs($0); c = str::tombs($0, "utf8"); d = str::tombs($0, "mb8"); e = str::tombs($0, "utf16"); f = str::tombs($0, "UTF8");
+  printf(@b"%d|%s\n", length(a), a); printf(@b"%d|%s\n", length(b), b); printf(@b"%d|%s\n", length(c), c);
+  printf(@b"%d|%s\n", length(d), d); printf(@b"%d|%s\n", length(e), e); printf(@b"%d|%s\n", length(f), f);
+  g = str::frommbs(str::tombs($0, "utf16"), "utf16"); print (g == $0), hawk::typename(a) hawk::typename(d) hawk::typename(g);
+}"""
+
+
+def conv_family(ctx, hawk, wdir):
+    """returns (#runs, impl_hits, corr_hits)"""
+    rng = ctx.rng
+    quick = ctx.tier == "quick"
+    impl, corr = [], []
+    nruns = 0
+
+    def keep(name, data):
+        k = os.path.join(C.VERIF, "replay", "C15", "conv-%s-seed%d-%s" % (ctx.tier, ctx.seed, name))
+        os.makedirs(os.path.dirname(k), exist_ok=True)
+        open(k, "wb").write(data)
+        return k
+
+    def where(out, exp):
+        k = next((i for i in range(min(len(out), len(exp))) if out[i] != exp[i]), min(len(out), len(exp)))
+        return "first difference at output byte %d: got %r expected %r" % (k, out[max(0, k - 10):k + 20], exp[max(0, k - 10):k + 20])
+
+    # ---- bytes -> text ------------------------------------------------------------------------------------------
+    blines = [b"A\xc3\xa9\xe2\x82\xacZ", b"A\xc3\xa9\xffZ\xe2\x82", b"\xe2\x82", b"\x80\xbf\xc0\x80", b"A\x00B\x00\xac\x20", b"A\x00B", bytes(range(0x20, 0x100)), b"", b"\xed\xa0\x80x",
+              b"\x00\xd8\x41\x00", b"\xf0\x90\x80\x80"]
+    for _ in range(12 if quick else 300):
+        k = rng.random()
+        if k < 0.4:
+            l = b"".join(u8(rand_char(rng)) for _ in range(rng.randrange(1, 30)))
+        elif k < 0.6:
+            l = b"".join(enc_cm("utf16", dom_char(rng, "utf16")) for _ in range(rng.randrange(1, 30)))
+        else:
+            l = b"".join(rand_stream(rng, rng.randrange(1, 30), 0.4))
+        blines.append(l.replace(b"\n", b"\x0b").rstrip(b"\r"))
+    lines = []
+    for l in blines:
+        lines += ["dupb utf8 1 %s" % (l.hex() or "-"), "dupb mb8 1 %s" % (l.hex() or "-"), "dupb utf16 1 %s" % (l.hex() or "-")]
+    mo = drv(ctx, lines)
+
+    def chars_of(o):
+        return p_chars(kv(o)["out"]) if o.startswith("ok ") else None
+    exp_model = b""; exp_ref = b""; ref_complete = True
+    for j, l in enumerate(blines):
+        m8, mm, m16 = (chars_of(mo[3 * j + t]) for t in range(3))
+        r8, rm, r16 = ref_decode_cm("utf8", l), ref_decode_cm("mb8", l), ref_decode_cm("utf16", l)
+
+        def txt(cs):
+            return ("%d|" % len(cs)).encode() + b"".join(u8(c) for c in cs) + b"\n"
+        for model_cs, ref_cs in ((m8, r8), (m8, r8), (m8, r8), (mm, rm), (m16, r16), ([], []), (m8, r8)):
+            exp_model += txt(model_cs if model_cs is not None else [])
+            exp_ref += txt(ref_cs) if ref_cs is not None else b"\x00?\n"
+        tail = ("%d|" % len(l)).encode() + l + b"\nstrstrmbs\n"
+        exp_model += tail; exp_ref += tail
+    data = b"".join(l + b"\n" for l in blines)
+    pf = os.path.join(wdir, "conv_b2t.hawk"); open(pf, "w").write(CONV_B2T)
+    rc, out, err = hawk_run(hawk, ["-f", pf], stdin_bytes=data, size=len(data)); nruns += 1
+    st = C.classify_rc(rc, err)
+    # oracle: the lines whose reference is known (well-formed under the manager) must equal it; the rest is the model's business
+    ol, rl = out.split(b"\n"), exp_ref.split(b"\n")
+    bad = None
+    if st != "ok":
+        bad = "status %s" % st
+    elif len(ol) != len(rl):
+        bad = "%d output lines, expected %d" % (len(ol), len(rl))
+    else:
+        for k, (a, b) in enumerate(zip(ol, rl)):
+            if b != b"\x00?" and a != b:
+                bad = "output line %d (input line %d): got %r, reference %r" % (k + 1, k // 9 + 1, a[:60], b[:60])
+                break
+    if bad:
+        impl.append(("bytes -> text conversions of values (\"\" x, str::frommbs with and without an encoding name, sprintf %%s) : %s" % bad,
+                     "# run: %s -f <prog> < %s\n%s\n# %s\n" % (hawk, keep("b2t.bin", data), CONV_B2T, err[-2000:].replace("\n", "\n# ")), cli_sig(err)))
+    elif out != exp_model:
+        corr.append(("bytes -> text conversions of ill-formed byte strings differ from the model's (theorems bytes_to_text_*): " + where(out, exp_model),
+                     "# run: %s -f <prog> < %s\n%s\n" % (hawk, keep("b2t.bin", data), CONV_B2T)))
+
+    # ---- text -> bytes (characters every manager carries: below 256) ----------------------------------------------
+    tlines = [[0x41, 0xE9, 0xFF, 0x80, 0x20, 0x7F], [0xE9], list(range(0x20, 0x100))]
+    for _ in range(8 if quick else 200):
+        tlines.append([rng.choice([rng.randrange(0x20, 0x100), 0x41, 0xE9]) for _ in range(rng.randrange(1, 60))])
+    tlines = [[c for c in l if c not in (0x0A, 0x0D)] or [0x41] for l in tlines]
+    data = b"".join(b"".join(u8(c) for c in l) + b"\n" for l in tlines)
+    exp = b""
+    for l in tlines:
+        b8 = b"".join(u8(c) for c in l); bm = bytes(l); b16 = b"".join(bytes([c, 0]) for c in l)
+        for v in (b8, b8, b8, bm, b16, b""):
+            exp += ("%d|" % len(v)).encode() + v + b"\n"
+        exp += b"1 mbsmbsstr\n"
+    pf = os.path.join(wdir, "conv_t2b.hawk"); open(pf, "w").write(CONV_T2B)
+    rc, out, err = hawk_run(hawk, ["-f", pf], stdin_bytes=data, size=len(data)); nruns += 1
+    st = C.classify_rc(rc, err)
+    if st != "ok" or out != exp:
+        impl.append(("text -> bytes conversions of values (@b\"\" s, str::tombs with and without an encoding name) and back: status %s; %s" % (st, where(out, exp)),
+                     "# run: %s -f <prog> < %s\n%s\n# %s\n" % (hawk, keep("t2b.bin", data), CONV_T2B, err[-2000:].replace("\n", "\n# ")), cli_sig(err)))
+    # a character the manager does not carry: rejected (run error), never converted to something else, no sanitizer report
+    for prog in ('BEGIN { x = str::tombs("A\\u20acB", "mb8"); printf(@b"[%s]\\n", x); }', 'BEGIN { x = "A\\u0100"; y = str::tombs(x, "mb8"); print length(y); }'):
+        rc, out, err = hawk_run(hawk, [prog]); nruns += 1
+        st = C.classify_rc(rc, err)
+        if st not in ("ok",) and not st.startswith("EXIT"):
+            impl.append(("str::tombs of a character the mb8 manager does not carry: status %s" % st, "# run: %s '%s'\n# %s\n" % (hawk, prog, err[-1500:].replace("\n", "\n# ")), cli_sig(err)))
+        elif rc == 0 and (b"[A" in out or out.strip().isdigit()):
+            impl.append(("str::tombs(\"...\", \"mb8\") converted a character above 255 instead of failing: %r" % out[:60], "# run: %s '%s'\n" % (hawk, prog), None))
+
+    # ---- consoles opened with another encoding -----------------------------------------------------------------------
+    jobs = []
+    for cm in ("utf16", "mb8"):
+        for t in range(2 if quick else 12):
+            ls = []
+            for _ in range(rng.randrange(3, 40)):
+                cs = [dom_char(rng, cm) for _ in range(rng.randrange(0, 80))]
+                cs = [c for c in cs if c not in (0x0A,)]
+                if cs and cs[-1] == 0x0D:
+                    cs[-1] = 0x41
+                ls.append(cs)
+            if t == 0:
+                ls.append([c for c in range(0x20, 0x100)] if cm == "mb8" else [0x0A0A, 0x010A, 0x0A00 + 0x41, 0xFFFF, 0xD7FF, 0xE000, 0x20AC])
+            data = b"".join(b"".join(enc_cm(cm, c) for c in l) + enc_cm(cm, 0x0A) for l in ls)
+            lens = b"".join(b"".join(enc_cm(cm, ord(ch)) for ch in "%d\n" % len(l)) for l in ls)
+            path = os.path.join(wdir, "enc_%s_%d.bin" % (cm, t)); open(path, "wb").write(data)
+            jobs.append((cm, "file%d" % t, ["--console-encoding=" + cm, "{print}", path], None, data, data))
+            jobs.append((cm, "len%d" % t, ["--console-encoding=" + cm, "{print length($0)}", path], None, data, lens))
+            if t < (1 if quick else 4) and len(data) > 4:
+                cuts = sorted(set(rng.randrange(1, len(data)) | 1 for _ in range(3)))      # odd offsets: inside a utf16 unit
+                chs = [data[a:b] for a, b in zip([0] + cuts, cuts + [len(data)]) if data[a:b]]
+                jobs.append((cm, "pipe%d" % t, ["--console-encoding=" + cm, "{print}"], chs, data, data))
+
+    def run_job(j):
+        cm, name, args, chs, data, exp = j
+        return hawk_run(hawk, args, stdin_chunks=chs, size=len(data)) if chs else hawk_run(hawk, args, size=len(data))
+    with ThreadPoolExecutor(max_workers=8) as ex:
+        results = list(ex.map(run_job, jobs))
+    nruns += len(jobs)
+    for (cm, name, args, chs, data, exp), (rc, out, err) in zip(jobs, results):
+        st = C.classify_rc(rc, err)
+        if st == "ok" and out == exp:
+            continue
+        sig = cli_sig(err)
+        if cm == "utf16" and chs and st == "ok":
+            # is this what the unrepaired decoder does with these read boundaries?
+            # (reads may merge adjacent writes when the machine is busy: try every merging of neighbours)
+            import itertools
+            cands = []
+            for mask in itertools.product([0, 1], repeat=len(chs) - 1):
+                m = [chs[0]]
+                for bit, c in zip(mask, chs[1:]):
+                    if bit:
+                        m[-1] = m[-1] + c
+                    else:
+                        m.append(c)
+                cands.append(m)
+            for o2 in drv(ctx, ["ident 2048 iUK 2048 %s" % fmt_chunks(m) for m in cands]):
+                mo2 = p_bytes(kv(o2)["out"])
+                if out in (mo2, mo2 + enc_cm("utf16", 0x0A)):      # print ends a last record that lost its newline
+                    sig = SIG_U16_INCOMPLETE
+                    break
+        impl.append(("hawk %s '%s' on well-formed %s text (%d bytes%s) does not reproduce it: status %s; %s" % (args[0], args[1], cm, len(data), ", piped in %d chunks at odd offsets" % len(chs) if chs else "", st, where(out, exp)),
+                     "# run: %s %s %s\n# input kept at %s%s\n# %s\n" % (hawk, args[0], "'%s'" % args[1], keep("enc-%s-%s.bin" % (cm, name), data), "\n# chunks: " + fmt_chunks(chs)[:1500] if chs else "", err[-1500:].replace("\n", "\n# ")), sig))
+    return nruns, impl, corr
+
 # ----------------------------------------------------------------------------
 THEOREMS_HINT = "theorems of HawkModel/Props/C15.lean speak about HawkModel/Utf8.lean and HawkModel/Tio.lean (decode_encode, encode_decode, decode_in_bounds, tio_read_chunk_independent, tio_write_roundtrip, …)"
 
@@ -1097,7 +1538,7 @@ def run(ctx):
         for f in sorted(os.listdir(cdir)):
             lines += [l.strip() for l in open(os.path.join(cdir, f)) if l.strip() and not l.startswith("#")]
     ncorpus = len(lines)
-    for name, g in [("codec", gen_codec), ("conv", gen_conv), ("tio", gen_tio), ("write", gen_write)]:
+    for name, g in [("codec", gen_codec), ("conv", gen_conv), ("tio", gen_tio), ("write", gen_write), ("cmgr", gen_cmgr)]:
         t = time.time()
         ls = g(ctx)
         lines += ls
@@ -1150,15 +1591,24 @@ def run(ctx):
             hits.append((i, m))
     hits += oracle_groups(lines, cout)
     hits.sort()
-    for i, m in hits[:3]:
-        def still(l):
+    ksig = known_sigs(ctx, lines, cout, [i for i, _ in hits])
+    report = [(i, m) for i, m in hits if i not in ksig][:3]
+    for sg in sorted(set(ksig.values())):
+        report.append(next((i, m) for i, m in hits if ksig.get(i) == sg))
+    for i, m in report:
+        def still(l, want=ksig.get(i)):
+            co, ab, mo, om = one(ctx, exe, l)
+            if om is None:
+                return False
+            return known_sigs(ctx, [l], [co], [0]).get(0) == want
+        def still_unused(l):
             co, ab, mo, om = one(ctx, exe, l)
             return om is not None
         small = shrink_tio(ctx, exe, lines[i], still) if not m.startswith("the same") else lines[i]
         co, ab, mo, om = one(ctx, exe, small)
         ctx.problem("impl", "op %r breaks the property on the real code: %s" % (small[:300], om or m),
                     "# feed to harness/utf8_h.c (built against the repo) and to `hawkdrv utf8`\n" + small + "\n# impl:\n" + str(co) + "\n# model:\n" + mo + "\n",
-                    found_input=True)
+                    found_input=True, sig=ksig.get(i))
     t = time.time()
     ncli, cli_impl, cli_corr = language_level(ctx, libdir)
     ctx.log("language level: %d runs in %.1fs" % (ncli, time.time() - t))
@@ -1173,8 +1623,14 @@ def run(ctx):
     # ---- (2) correspondence with the Lean model --------------------------------------------------------------
     ndiff = 0
     hitset = {i for i, _ in hits}
+    diffs = [i for i, (a, b) in enumerate(zip(cout, mout)) if a is not None and i not in hitset and a != b]
+    dsig = known_sigs(ctx, lines, cout, diffs)
+    for sg in sorted(set(dsig.values())):
+        i = next(i for i in diffs if dsig.get(i) == sg)
+        ctx.problem("impl", "op %r: the code does what the model of the unrepaired utf16.c does: impl %r vs model %r" % (lines[i][:200], str(cout[i])[:200], str(mout[i])[:200]),
+                    "# feed to harness/utf8_h.c and to `hawkdrv utf8`\n" + lines[i] + "\n# impl:\n" + str(cout[i]) + "\n# model:\n" + str(mout[i]) + "\n", found_input=True, sig=sg)
     for i, (a, b) in enumerate(zip(cout, mout)):
-        if a is None or i in hitset or a == b:
+        if a is None or i in hitset or a == b or i in dsig:
             continue
         ndiff += 1
         if ndiff <= 2:
